@@ -81,4 +81,10 @@ def main(tier):
         'num_messages of a tracked aircraft stays below u32::MAX (2^32-1 frames from one aircraft is not a reachable history)',
         "panics inside builtins are covered as far as the builtin models them (index checks, unwrap, deku's counters); allocation failure is not modelled",
         'floating-point comparisons are abstracted to Boolean atoms during exploration (over-approximates feasibility)']
-    fw.finish('C01', tier, t0, results, cov, assume, level='model_checking', replay_fn=decode_driver.replay_violation)
+    def replay(v):
+        # decode-level counterexamples carry a witness frame and are replayed natively; counterexamples of the
+        # get_position / tracker-step lemmas are models of a symbolic pre-state (see tracker_driver.replay_violation)
+        if v.get('witness') is None and v.get('predicted') is None:
+            return tracker_driver.replay_violation(v)
+        return decode_driver.replay_violation(v)
+    fw.finish('C01', tier, t0, results, cov, assume, level='model_checking', replay_fn=replay)
